@@ -1,7 +1,7 @@
 """C13 - standard-distribution values are exactly equiprobable and always valid."""
 from . import common as C, gen_int as G, oracles as O
 
-LEAN_MODULE = ["Urandom.Props.C13", "Urandom.Props.C13T"]
+LEAN_MODULE = ["Urandom.Props.C13", "Urandom.Props.C13T", "Urandom.Props.C13R"]
 RULE = ("requests: every implemented target type of StandardUniform (bool, 8..128-bit ints, isize/usize, Wrapping, f32/f64, char, NonZero*, tuples up to 12, arrays, Random::fill) "
         "x structured words (0, !0, single bits, words truncating to zero for NonZero, words hitting the char thresholds 0x800/0xDFFF/0xE000/0x10FFFF at both ends of their "
         "acceptance interval and rejected words); Alnum on all 64 six-bit indices exhaustively; extra (implementation only): exact preimage interval search for boundary "
